@@ -93,7 +93,19 @@ func c14(r *mon.Run) {
 	r.Exhaustive = true
 	r.Assumptions = []string{"the three JSON string encoders in gen/encode.go follow RFC 8259 (they share no code with encoding/json)", "raw strings are restricted as C14 says: no backslash directly before a quote or at the end"}
 	nrand := tierPick(r, 30000, 1500000)
-	ns, strAt := c14Strings(r.Seed, nrand)
+	ns0, strAt0 := c14Strings(r.Seed, nrand)
+	// a few long strings (scanner buffers, chunked copies): built by repeating short trouble strings
+	longLens := []int{255, 256, 257, 1023, 1025, 4097, 70001}
+	ns := ns0 + len(longLens)*6
+	strAt := func(i int) string {
+		if i < ns0 {
+			return strAt0(i)
+		}
+		k := i - ns0
+		unit := []string{"a", "\\", "'", "\"", "`", "é😀"}[k%6]
+		n := longLens[k/6]
+		return strings.Repeat(unit, n/len(unit)+1)[:n/len(unit)*len(unit)] + "z"
+	}
 	quoted := mon.Workload{Name: "quoted-identifiers", N: ns,
 		Describe: func(i int) string { return gen.EncodeString(strAt(i), gen.EncMinimal, nil) },
 		Do: func(i int, t *mon.Tally) {
